@@ -125,6 +125,9 @@ func (g *gateMapBroker) Stats(ctx context.Context, ch string) (centrifuge.MapSta
 func (g *gateMapBroker) ReadStream(ctx context.Context, ch string, opts centrifuge.MapReadStreamOptions) (centrifuge.MapStreamResult, error) {
 	res, err := g.Inner.ReadStream(ctx, ch, opts)
 	if r := g.w.runner(ch); r != nil {
+		if err == nil {
+			r.epochNum(res.Position.Epoch)
+		}
 		switch {
 		case opts.Filter.Since == nil && opts.Filter.Limit == 0:
 			r.park("pos") // stream position read: "sp" (state command) or "tp" (stream command)
@@ -136,8 +139,11 @@ func (g *gateMapBroker) ReadStream(ctx context.Context, ch string, opts centrifu
 }
 func (g *gateMapBroker) ReadState(ctx context.Context, ch string, opts centrifuge.MapReadStateOptions) (centrifuge.MapStateResult, error) {
 	res, err := g.Inner.ReadState(ctx, ch, opts)
-	if r := g.w.runner(ch); r != nil && err == nil && res.Cursor == "" && opts.Key == "" && opts.Limit != 0 {
-		r.park("sr")
+	if r := g.w.runner(ch); r != nil {
+		r.epochNum(res.Position.Epoch)
+		if err == nil && res.Cursor == "" && opts.Key == "" && opts.Limit != 0 {
+			r.park("sr")
+		}
 	}
 	return res, err
 }
@@ -255,19 +261,21 @@ type runner struct {
 	trans      bool
 	epochs     map[string]int
 
-	conn      *cl.Conn
-	cmdDone   chan struct{}
-	cmdIDs    map[uint32]string // id -> "sub" | "refresh"
-	log       []logEntry
-	rc        refClient
-	nproc     int // frames already given to the reference client
-	real      []frame
-	refreshAt int // index in real frames of the invalidating unsubscribe (-1: none)
-	resubs    int
-	hole      bool           // the model recorded a non-contiguous stream read in this behaviour
-	lastCmd   string         // StateCmd | StreamCmd | JoinCmd: what started the live transition in flight / last finished
-	delivAt   map[int]string // operation id -> where the subscriber was when the change was handed to the node
-	blocked   chan struct{}  // closed when the delivery made while the buffer was locked has returned
+	conn       *cl.Conn
+	cmdDone    chan struct{}
+	cmdIDs     map[uint32]string // id -> "sub" | "refresh"
+	log        []logEntry
+	rc         refClient
+	nproc      int // frames already given to the reference client
+	real       []frame
+	refreshAt  int // index in real frames of the invalidating unsubscribe (-1: none)
+	resubs     int
+	hole       bool           // the model recorded a non-contiguous stream read in this behaviour
+	lastCmd    string         // StateCmd | StreamCmd | JoinCmd: what started the live transition in flight / last finished
+	delivAt    map[int]string // operation id -> where the subscriber was when the change was handed to the node
+	blocked    chan struct{}  // closed when the delivery made while the buffer was locked has returned
+	modelEpoch int            // the model's current epoch number (epoch strings are numbered when first seen)
+	clearAt    string         // where the subscriber was at the last Clear ("" = no Clear)
 }
 
 // every runner of the process by channel: the verif hook is process wide
@@ -487,6 +495,17 @@ func (r *runner) epochNum(e string) int {
 	defer r.mu.Unlock()
 	if n, ok := r.epochs[e]; ok {
 		return n
+	}
+	// an epoch string seen for the first time: the channel was (re-)created by the access that returned it; its number is
+	// the model's current epoch (the harness itself never touches a cleared channel, that would re-create it)
+	if r.modelEpoch > 0 {
+		for _, n := range r.epochs {
+			if n == r.modelEpoch {
+				return -1
+			}
+		}
+		r.epochs[e] = r.modelEpoch
+		return r.modelEpoch
 	}
 	return -1
 }
@@ -1055,6 +1074,13 @@ func (r *runner) judge(prefix string) (*verdict, string) {
 	}
 	kind := r.transitionKind()
 	sig := "unexplained:" + r.mode + ":" + r.kind
+	if lostID == 0 && r.clearAt != "" {
+		// nothing of the client's epoch is missing from the stream: it holds the state of a cleared epoch
+		window := map[string]string{"sr": "between-state-read-and-probe", "sp": "between-probe-and-live-read", "tp": "between-probe-and-live-read",
+			"g1": "between-probe-and-live-read", "g3": "after-live-read", "rp": "while-buffer-locked", "idle": "outside-the-transition"}[r.clearAt]
+		return &verdict{"C22", "clear:" + window + ":" + kind, prefix + fmt.Sprintf("nothing is in flight, the client was told LIVE in the current epoch and nothing else, but it holds %s while the broker state (admitted keys) is %s at stream top %d: the channel was cleared while the subscriber was at %q (%s) and the epoch flip went unnoticed",
+			fmtMap(r.rc.m), fmtMap(want), top, r.clearAt, kind)}, ""
+	}
 	switch r.delivAt[lostID] {
 	case "sr":
 		sig = kind + ":update-between-state-read-and-top-probe-lost"
@@ -1341,6 +1367,9 @@ func (w *worker) run(bi int, try int, beh []map[string]any, res *attempt, maxRes
 		act := vh.Str(step["act"])
 		steps = append(steps, step)
 		pcNext := vh.Str(st["pc"])
+		r.mu.Lock()
+		r.modelEpoch = vh.Int(st["epoch"])
+		r.mu.Unlock()
 		r.hole = false
 		for _, h := range vh.List(st["hz"]) {
 			if vh.Str(h) == "hole" {
@@ -1388,7 +1417,7 @@ func (w *worker) run(bi int, try int, beh []map[string]any, res *attempt, maxRes
 			if err := w.env.Node.MapClear(ctx, r.ch, centrifuge.MapClearOptions{}); err != nil {
 				trouble("clear: " + err.Error())
 			}
-			r.registerEpoch(vh.Int(st["epoch"]))
+			r.clearAt = vh.Str(prev["pc"]) // no access here: the next one by the code under test re-creates the channel
 		case "Deliver":
 			id := vh.Int(step["id"])
 			r.mu.Lock()
@@ -1504,6 +1533,7 @@ func (w *worker) run(bi int, try int, beh []map[string]any, res *attempt, maxRes
 			}
 			r.resubs++
 			r.rc = freshClient()
+			r.clearAt = ""
 		case "SubRefresh":
 			changed := vh.Bool(step["changed"])
 			if changed {
@@ -1877,7 +1907,8 @@ func windows(_ json.RawMessage, res *vh.Result) error {
 	}
 	defer w.env.Close()
 	type schedule struct{ name, kind, at string }
-	for i, sc := range []schedule{{"top-probe", "fresh", "sp"}, {"lock:state-to-live", "fresh", "rp"}, {"lock:stream-to-live", "rstream", "rp"}, {"lock:recovery-join", "rlive", "rp"}} {
+	for i, sc := range []schedule{{"top-probe", "fresh", "sp"}, {"lock:state-to-live", "fresh", "rp"}, {"lock:stream-to-live", "rstream", "rp"}, {"lock:recovery-join", "rlive", "rp"},
+		{"clear:between-probe-and-live-read", "fresh", "sp"}} {
 		err := func() error {
 			r := &runner{w: w, ch: fmt.Sprintf("win%d_%d", vh.Seed(), i), mode: "per", kind: sc.kind, page: 2, ssize: 4, ktag: map[int]string{1: "keep", 2: "keep"},
 				deliveries: map[int]delivery{}, epochs: map[string]int{}, cmdIDs: map[uint32]string{}, refreshAt: -1, delivAt: map[int]string{}}
@@ -1925,6 +1956,16 @@ func windows(_ json.RawMessage, res *vh.Result) error {
 			var actErr error
 			finished := r.drive(sc.at, func() {
 				reached = true
+				if strings.HasPrefix(sc.name, "clear:") {
+					// the channel is deleted after the stream top probe and nothing re-creates it before the transition's stream
+					// read: the broker answers that read with a fresh epoch at offset 0 and no error
+					r.mu.Lock()
+					r.modelEpoch = 2
+					r.mu.Unlock()
+					r.clearAt = sc.at
+					actErr = w.env.Node.MapClear(context.Background(), r.ch, centrifuge.MapClearOptions{})
+					return
+				}
 				if actErr = r.publish(next, 2); actErr != nil {
 					return
 				}
@@ -1946,7 +1987,11 @@ func windows(_ json.RawMessage, res *vh.Result) error {
 					_ = w.gb.handler.HandlePublication(r.ch, d.pub, d.sp, false, nil)
 				}
 			})
-			steps = append(steps, fmt.Sprintf("%s command; at gate %q: publish k2 (#%d) and hand it to the node; release", r.lastCmd, sc.at, next))
+			if strings.HasPrefix(sc.name, "clear:") {
+				steps = append(steps, fmt.Sprintf("%s command; at gate %q (after the stream top probe): MapClear, nothing published; release", r.lastCmd, sc.at))
+			} else {
+				steps = append(steps, fmt.Sprintf("%s command; at gate %q: publish k2 (#%d) and hand it to the node; release", r.lastCmd, sc.at, next))
+			}
 			if actErr != nil {
 				return actErr
 			}
@@ -1966,6 +2011,10 @@ func windows(_ json.RawMessage, res *vh.Result) error {
 			for j := 0; j < 6; j++ { // finish the protocol if the command did not end live
 				_, v := r.settle()
 				vs = append(vs, v...)
+				if r.rc.ph == "told" && strings.HasPrefix(sc.name, "clear:") {
+					r.rc = freshClient() // told unrecoverable: subscribe from scratch, which must converge
+					r.clearAt = ""
+				}
 				req := r.nextRequest()
 				if req == nil || !finished {
 					break
@@ -2143,5 +2192,5 @@ func joinSchedules(w *worker, res *vh.Result) error {
 }
 
 func main() {
-	vh.Main(map[string]vh.Mode{"replay": replay, "probe": probe, "windows": windows})
+	vh.Main(map[string]vh.Mode{"replay": replay, "probe": probe, "windows": windows, "presence": presence, "hubsub": hubsub})
 }
